@@ -895,10 +895,13 @@ def function_tensor_signature(tys: list[FunctionType]) -> FunctionType:
     """Compute the combined function signature of a list of functions"""
     inputs: list[FuncInput] = []
     outputs: list[Type] = []
+    # Calling the tensor calls every function, so it only has the flags they all have
+    unitary_flags = UnitaryFlags.Unitary if tys else UnitaryFlags.NoFlags
     for fun_ty in tys:
         assert not fun_ty.parametrized
         # Forget the function input names since they might be non-unique across the
         # tensored functions
         inputs.extend([replace(inp, name=None) for inp in fun_ty.inputs])
         outputs.extend(type_to_row(fun_ty.output))
-    return FunctionType(inputs, row_to_type(outputs))
+        unitary_flags &= fun_ty.unitary_flags
+    return FunctionType(inputs, row_to_type(outputs), unitary_flags=unitary_flags)
